@@ -192,3 +192,53 @@ package gomavlib
 //@   loop 3 invariant true
 //@   loop 4 invariant true
 //@   modifies ghost:log, *n.channels
+
+// ---------------------------------------------------------------- heartbeats and stream requests (C16)
+// rvField(m, "X"): value written with reflect SetUint into field X of the message m built by reflect.New;
+// rvGet-style reads of a received message are uninterpreted functions of that message.
+
+//@ func (*nodeStreamRequest).onEventFrame
+//@   ghostlog (*gomavlib.Node).WriteMessageTo, (*gomavlib.Node).pushEvent
+//@   let MSG  = evt.Frame.GetMessage()
+//@   let SYS  = evt.Frame.GetSystemID()
+//@   let COMP = evt.Frame.GetComponentID()
+//@   let KEY  = streamNode{Channel: evt.Channel, SystemID: evt.Frame.GetSystemID(), ComponentID: evt.Frame.GetComponentID()}
+//@   let ISAP = (evt.Frame.GetMessage().GetID() == 0 && reflect.ValueOf(evt.Frame.GetMessage()).Elem().FieldByName("Autopilot").Uint() == 3)
+//@   let REQ  = (logCount("(*gomavlib.Node).WriteMessageTo") == 7)
+//@   requires sr != nil && sr.node != nil && sr.lastRequests != nil && sr.msgRequestDataStream != nil
+//@   requires evt != nil && evt.Frame != nil && evt.Frame.GetMessage() != nil
+//@   ensures  [others-trigger-nothing] !ISAP ==> logLen() == 0
+//@   ensures  [rate-limit] ISAP ==> (REQ == (!old(mapHasKey(sr.lastRequests, KEY)) || timeSub(lastNow(0), old(sr.lastRequests[KEY])) >= 30*time.Second))
+//@   ensures  [no-request-no-traffic] ISAP && !REQ ==> logLen() == 2 && logCallee(0, "sync.Mutex.Lock") && logCallee(1, "sync.Mutex.Unlock")
+//@   ensures  [exactly-seven-then-event] REQ ==> logLen() == 10 && logCallee(0, "sync.Mutex.Lock") && logCallee(1, "sync.Mutex.Unlock") &&
+//@              logCallee(9, "(*gomavlib.Node).pushEvent")
+//@   ensures  [the-seven-standard-streams-in-order] REQ ==>
+//@              specIsStreamRequest(2, sr.node, evt.Channel, sr.msgRequestDataStream, SYS, COMP, 0, uint64(sr.node.StreamRequestFrequency)) &&
+//@              specIsStreamRequest(3, sr.node, evt.Channel, sr.msgRequestDataStream, SYS, COMP, 1, uint64(sr.node.StreamRequestFrequency)) &&
+//@              specIsStreamRequest(4, sr.node, evt.Channel, sr.msgRequestDataStream, SYS, COMP, 2, uint64(sr.node.StreamRequestFrequency)) &&
+//@              specIsStreamRequest(5, sr.node, evt.Channel, sr.msgRequestDataStream, SYS, COMP, 3, uint64(sr.node.StreamRequestFrequency)) &&
+//@              specIsStreamRequest(6, sr.node, evt.Channel, sr.msgRequestDataStream, SYS, COMP, 4, uint64(sr.node.StreamRequestFrequency)) &&
+//@              specIsStreamRequest(7, sr.node, evt.Channel, sr.msgRequestDataStream, SYS, COMP, 5, uint64(sr.node.StreamRequestFrequency)) &&
+//@              specIsStreamRequest(8, sr.node, evt.Channel, sr.msgRequestDataStream, SYS, COMP, 6, uint64(sr.node.StreamRequestFrequency))
+//@   ensures  [one-stream-requested-event] REQ ==> dynIs(logArg(9, 1), "*gomavlib.EventStreamRequested") &&
+//@              logArg(9, 1).(*EventStreamRequested).Channel == evt.Channel &&
+//@              logArg(9, 1).(*EventStreamRequested).SystemID == SYS && logArg(9, 1).(*EventStreamRequested).ComponentID == COMP
+//@   ensures  [remembered] REQ ==> mapHasKey(sr.lastRequests, KEY)
+//@   canary   !REQ
+//@   canary   REQ
+//@   modifies *sr.lastRequests, ghost:log
+
+//@ func (*nodeHeartbeat).run
+//@   ghostlog (*gomavlib.Node).WriteMessageAll
+//@   requires h != nil && h.node != nil && h.node.Dialect != nil && h.msgHeartbeat != nil && h.done != nil
+//@   ensures  [stops-only-on-termination] logIs(logLen()-3, "recv", "terminate") && logCallee(logLen()-2, "time.Ticker.Stop") && logIs(logLen()-1, "close", "done")
+//@   ensures  [ticker-has-the-configured-period] logCallee(0, "time.NewTicker") && logArgDuration(0, 0) == h.node.HeartbeatPeriod
+//@   loop 0 invariant logCallee(0, "time.NewTicker") && logArgDuration(0, 0) == h.node.HeartbeatPeriod
+//@   loop 0 body-ensures [one-heartbeat-per-tick] logLen() == 2 && logIs(0, "recv", "C") && logCallee(1, "(*gomavlib.Node).WriteMessageAll") && logArgIsPtr(1, 0, h.node)
+//@   loop 0 body-ensures [configured-fields] sameDynType(logArg(1, 1), h.msgHeartbeat) && rvFieldsSet(logArg(1, 1)) == 6 &&
+//@                    rvField(logArg(1, 1), "Type") == uint64(h.node.HeartbeatSystemType) &&
+//@                    rvField(logArg(1, 1), "Autopilot") == uint64(h.node.HeartbeatAutopilotType) &&
+//@                    rvField(logArg(1, 1), "BaseMode") == 0 && rvField(logArg(1, 1), "CustomMode") == 0 &&
+//@                    rvField(logArg(1, 1), "SystemStatus") == 4 &&
+//@                    rvField(logArg(1, 1), "MavlinkVersion") == uint64(h.node.Dialect.Version)
+//@   modifies ghost:log
